@@ -2,6 +2,7 @@ package verifharness
 
 import (
 	"context"
+	"encoding/base64"
 	"encoding/binary"
 	"errors"
 	"fmt"
@@ -86,9 +87,25 @@ func mdOf(tok int64) []*goatorepo.KeyValue {
 
 var badMD = []*goatorepo.KeyValue{{Key: "x-bin", Value: "!!!not-base64!!!"}}
 
+// binMDKey / binSpec: response metadata with ONE "-bin" key whose wire value is given literally ("bin:<value>" in
+// EnvSpec.Hdr / Trl). On the wire a -bin value is padded base64url (internal.ToKeyValue encodes with
+// base64.URLEncoding): the oracle for "decodable" is that decoder, and a decoded value is reported as the length token
+// 8000 + len(bytes).
+const binMDKey = "k7-bin"
+
+func binSpec(s string) (string, bool) {
+	if strings.HasPrefix(s, "bin:") {
+		return s[4:], true
+	}
+	return "", false
+}
+
 func mdTokenOf(md metadata.MD) int64 {
 	if len(md) == 0 {
 		return 0
+	}
+	if vs, ok := md[binMDKey]; ok && len(md) == 1 && len(vs) == 1 {
+		return 8000 + int64(len(vs[0]))
 	}
 	if len(md) == 1 {
 		for k, vs := range md {
@@ -185,6 +202,12 @@ func mdvCoq(s string) string {
 		return "None"
 	case s == "bad":
 		return "(Some MdBad)"
+	case strings.HasPrefix(s, "bin:"):
+		raw, err := base64.URLEncoding.DecodeString(s[4:])
+		if err != nil {
+			return "(Some MdBad)"
+		}
+		return fmt.Sprintf("(Some (MdOk %d))", 8000+len(raw))
 	default:
 		var n int64
 		fmt.Sscanf(s, "ok:%d", &n)
@@ -210,6 +233,8 @@ func (e *EnvSpec) build(id uint64, method string) *Rpc {
 	case e.Hdr == "none" || e.Hdr == "":
 	case e.Hdr == "bad":
 		r.Header = &goatorepo.RequestHeader{Method: method, Source: "dst", Destination: "src", Headers: badMD}
+	case strings.HasPrefix(e.Hdr, "bin:"):
+		r.Header = &goatorepo.RequestHeader{Method: method, Source: "dst", Destination: "src", Headers: []*goatorepo.KeyValue{{Key: binMDKey, Value: e.Hdr[4:]}}}
 	default:
 		var n int64
 		fmt.Sscanf(e.Hdr, "ok:%d", &n)
@@ -225,6 +250,8 @@ func (e *EnvSpec) build(id uint64, method string) *Rpc {
 	case e.Trl == "none" || e.Trl == "":
 	case e.Trl == "bad":
 		r.Trailer = &goatorepo.Trailer{Metadata: badMD}
+	case strings.HasPrefix(e.Trl, "bin:"):
+		r.Trailer = &goatorepo.Trailer{Metadata: []*goatorepo.KeyValue{{Key: binMDKey, Value: e.Trl[4:]}}}
 	default:
 		var n int64
 		fmt.Sscanf(e.Trl, "ok:%d", &n)
